@@ -20,6 +20,21 @@ OPERATORS = collections.defaultdict(lambda: not_implemented)
 
 numeric_wrap = functools.partial(wrap_ufunc)
 
+
+def _power(x, y):
+    if x == 0:
+        if y == 0:
+            return Error.errors['#NUM!']
+        if y < 0:
+            return Error.errors['#DIV/0!']
+    try:
+        r = x ** y
+    except OverflowError:
+        return Error.errors['#NUM!']
+    if isinstance(r, complex):  # Negative base with fractional exponent.
+        return Error.errors['#NUM!']
+    return r
+
 # noinspection PyTypeChecker
 OPERATORS.update({k: numeric_wrap(v) for k, v in {
     '+': lambda x, y: x + y,
@@ -27,7 +42,7 @@ OPERATORS.update({k: numeric_wrap(v) for k, v in {
     'U-': lambda x: -x,
     '*': lambda x, y: x * y,
     '/': lambda x, y: (x / y) if y else Error.errors['#DIV/0!'],
-    '^': lambda x, y: x ** y,
+    '^': lambda x, y: _power(x, y),
     '%': lambda x: x / 100.0,
 }.items()})
 OPERATORS['U+'] = wrap_ufunc(
